@@ -27,7 +27,9 @@ EXPLANATION = (
 
 
 def in_eas(n):
-    return n.fn is not None and n.fn.qualname.startswith("EAS.")
+    """created by the optical stage's own module (the EAS class or a helper next to it)"""
+    return n.fn is not None and (n.fn.qualname.startswith("EAS.") or
+                                 (n.fn.module is not None and n.fn.module.name.endswith("eas_optical.eas")))
 
 
 def nonzero_alt(n):
